@@ -91,7 +91,7 @@ def eval_pdm(item):
     fails = []
     n = 0
     try:
-        with time_limit(30):
+        with limit(30):
             pdm = tree.phylogenetic_distance_matrix(is_store_path_edges=True) if store else tree.phylogenetic_distance_matrix()
     except Timeout:
         return [("pdm.hangs", "no result after 30 s")], 1
@@ -170,7 +170,7 @@ def eval_ndm(item):
     fails = []
     n = 0
     try:
-        with time_limit(30):
+        with limit(30):
             ndm = tree.node_distance_matrix()
     except Timeout:
         return [("ndm.hangs", "no result after 30 s")], 1
@@ -215,7 +215,7 @@ def eval_tm(item):
                 tree.encode_bipartitions(suppress_unifurcations=False)
             by = P.leaf_by_label(tree)
             try:
-                with time_limit(20):
+                with limit(20):
                     d = treemeasure.patristic_distance(tree, by[a].taxon, by[b].taxon, is_bipartitions_updated=updated)
             except Timeout:
                 fails.append(("treemeasure.patristic_distance.hangs", "(%s,%s)" % (a, b)))
@@ -284,7 +284,7 @@ def eval_mrca(item):
             else:
                 kw["leafset_bitmask"] = SP.mask_of(sub, BIT_OF)
             try:
-                with time_limit(20):
+                with limit(20):
                     got = tree.mrca(**kw)
             except Timeout:
                 fails.append(("mrca.hangs", "%s %s=%s" % (cond, mode, "".join(sub)), sub))
@@ -396,7 +396,7 @@ def eval_recon(item):
     else:
         want = table_of(src, rooted_cmp)
     try:
-        with time_limit(30):
+        with limit(30):
             pdm = src.phylogenetic_distance_matrix()
             if route == "csv":
                 pdm = _via_csv(pdm, src.taxon_namespace)
@@ -476,26 +476,46 @@ def _k_recon(item):
 
 
 def _w_pdm(item):
+    return retry_hangs(_w_pdm0, item)
+
+
+def _w_pdm0(item):
     f, n = eval_pdm(item)
     return (_k_pdm(item), len(item["spec"]["leaves"]), f, n)
 
 
 def _w_ndm(item):
+    return retry_hangs(_w_ndm0, item)
+
+
+def _w_ndm0(item):
     f, n = eval_ndm(item)
     return (spec_key(item["spec"]), len(item["spec"]["leaves"]), f, n)
 
 
 def _w_tm(item):
+    return retry_hangs(_w_tm0, item)
+
+
+def _w_tm0(item):
     f, n = eval_tm(item)
     return (_k_tm(item), len(item["spec"]["leaves"]), f, n)
 
 
 def _w_mrca(item):
+    return retry_hangs(_w_mrca0, item)
+
+
+def _w_mrca0(item):
     f, n = eval_mrca(item)
     return (_k_mrca(item), len(item["spec"]["leaves"]), f, n)
 
 
 def _w_recon(item):
+    return retry_hangs(_w_recon0, item)
+
+
+def _w_recon0(item):
     return (_k_recon(item), len(item["spec"]["leaves"]), eval_recon(item))
 
 
@@ -510,7 +530,8 @@ def t2(ctx):
     ctx.scope(sc, rule="ordered shapes with <= %d leaves (+ every one-unifurcation variant up to 4 leaves) x {identity, reversed labelling, "
                        "a 2-taxa-removed reversed namespace} x 7 length patterns (none, ones, ints with zeros, dyadic, one missing, "
                        "alternating zeros, seed length) x {rooted, unrooted} x is_store_path_edges; one evaluation per ordered taxon pair "
-                       "and per summary call; non-trivial = >= 3 leaves" % nmax, exhaustive=True)
+                       "and per summary call; from 5 leaves on: unrooted only with dyadic / onemissing lengths%s; edge storage only with none / "
+                       "dyadic lengths; non-trivial = >= 3 leaves" % (nmax, ", no zeros / seed-length patterns" if quick else ""), exhaustive=True)
     items = []
     for shape, leaves, nsd in _tree_specs(nmax, 4):
         for pat in PATTERNS:
@@ -532,7 +553,7 @@ def t2(ctx):
 
     # ---- ndm
     sc = "ndm@all node pairs"
-    ctx.scope(sc, rule="shapes with <= %d leaves (+ unifurcation variants up to 4) x {none, dyadic, onemissing, zeros} x rooted: every "
+    ctx.scope(sc, rule="shapes with <= %d leaves (+ unifurcation variants up to 4) x {none, dyadic, onemissing, zeros} x rooted, identity labelling: every "
                        "ordered pair of nodes; non-trivial = >= 3 leaves" % (5 if quick else 6), exhaustive=True)
     items = []
     for shape, leaves, nsd in _tree_specs(5 if quick else 6, 4, ns_small=False):
@@ -548,7 +569,7 @@ def t2(ctx):
 
     # ---- treemeasure.patristic_distance
     sc = "tm@pairs"
-    ctx.scope(sc, rule="shapes with <= %d leaves (+ unifurcation variants up to 3) x {none, dyadic, onemissing, ints} x {rooted, unrooted} x "
+    ctx.scope(sc, rule="shapes with <= %d leaves (+ unifurcation variants up to 3) x {none, dyadic, onemissing, ints} x {rooted, unrooted}, identity labelling x "
                        "is_bipartitions_updated in {False, True on a current encoding}: every unordered-with-repetition pair on a fresh "
                        "tree; non-trivial = >= 3 leaves" % (4 if quick else 5), exhaustive=True)
     items = []
@@ -603,7 +624,8 @@ def t2(ctx):
     sc = "nj@additive"
     ctx.scope(sc, rule="shapes with 2..%d leaves (+ unifurcation variants up to 4) x 3 length assignments with positive internal lengths "
                        "(dyadic; with zero leaf lengths; all one) x {identity, reversed labelling} x route in {matrix of the tree, "
-                       "written to CSV and read back, edge-count matrix}; non-trivial = >= 4 leaves" % (6 if quick else 7), exhaustive=True)
+                       "written to CSV and read back (up to 5 leaves), edge-count matrix}; from 6 leaves identity labelling only; 7 leaves: every third "
+                       "shape; non-trivial = >= 4 leaves" % (6 if quick else 7), exhaustive=True)
     items = []
     for n in range(2, (6 if quick else 7) + 1):
         for si, shape in enumerate(shapes_exact(n)):
@@ -630,7 +652,7 @@ def t2(ctx):
     sc = "upgma@ultrametric"
     ctx.scope(sc, rule="shapes with 2..%d leaves x 3 assignments of dyadic node heights x {identity, reversed labelling} x route in {matrix "
                        "of the tree, CSV round trip, edge-count matrix (shapes with all leaves at one depth)}; non-trivial = >= 4 leaves"
-                       % (6 if quick else 7), exhaustive=True)
+                       "; from 6 leaves identity labelling and no CSV route; 7 leaves: every third shape" % (6 if quick else 7), exhaustive=True)
     items = []
     for n in range(2, (6 if quick else 7) + 1):
         for si, shape in enumerate(shapes_exact(n)):
@@ -650,6 +672,43 @@ def t2(ctx):
                         items.append({"spec": spec, "method": "upgma", "route": route})
     for item, (key, n, fails) in zip(items, pmap(_w_recon, items, chunksize=16)):
         ctx.case(sc, key, nontrivial=n >= 4)
+        for mon, detail in fails:
+            rep.fail(mon, {"key": key, "kind": "recon", "item": item}, detail=detail)
+    # ---- seeded random larger trees
+    sc = "random@8-12 leaves"
+    ctx.scope(sc, rule="%d seeded random trees with 8-12 leaves (polytomies p=0.3; unifurcations p=0.1 except for UPGMA) over a 12-taxon "
+                       "namespace: pdm clauses (dyadic / one-missing lengths), mrca for subsets of size <= 3 and >= n-1 (current encoding "
+                       "and refresh), NJ on positive internal lengths, UPGMA on dyadic node heights; evaluations counted as in the "
+                       "exhaustive scopes; all non-trivial" % (40 if quick else 600), exhaustive=False)
+    r2 = rng_for(ctx, 1414)
+    it_pdm, it_mrca, it_rec = [], [], []
+    for _ in range(40 if quick else 600):
+        n = r2.randint(8, 12)
+        leaves = r2.sample(LABELS[:12], n)
+        nsd = {"total": 12, "removed": [], "order": "asis"}
+        sh = random_shape(n, r2, 0.3, 0.1)
+        rooted = r2.random() < 0.5
+        it_pdm.append({"spec": {"shape": lst(sh), "leaves": leaves, "rooted": rooted, "lens": _lens(sh, r2.choice(["dyadic", "onemissing", "ints"])),
+                                "ns": nsd}, "store": r2.random() < 0.3})
+        it_mrca.append({"spec": {"shape": lst(sh), "leaves": leaves, "rooted": rooted, "lens": None, "ns": nsd},
+                        "cond": r2.choice(MRCA_CONDS[:3])})
+        it_rec.append({"spec": {"shape": lst(sh), "leaves": leaves, "rooted": False, "lens": nj_lens(sh, r2.choice([0, 1])), "ns": nsd},
+                       "method": "nj", "route": r2.choice(["direct", "csv"])})
+        sh2 = random_shape(n, r2, 0.3)
+        it_rec.append({"spec": {"shape": lst(sh2), "leaves": leaves, "rooted": True, "lens": ultrametric_lens(sh2, r2.choice([0, 1, 2])), "ns": nsd},
+                       "method": "upgma", "route": r2.choice(["direct", "csv"])})
+    for item, (key, n, fails, ne) in zip(it_pdm, pmap(_w_pdm, it_pdm, chunksize=2)):
+        for i in range(ne):
+            ctx.case(sc, (key, i), sample=key)
+        for mon, detail in fails:
+            rep.fail(mon, {"key": key, "kind": "pdm", "item": item}, detail=detail)
+    for item, (key, n, fails, ne) in zip(it_mrca, pmap(_w_mrca, it_mrca, chunksize=2)):
+        for i in range(ne):
+            ctx.case(sc, (key, i), sample=key)
+        for mon, detail, sub in fails:
+            rep.fail(mon, {"key": key + " subset=" + "".join(sub), "kind": "mrca", "item": item, "subset": sub}, detail=detail)
+    for item, (key, n, fails) in zip(it_rec, pmap(_w_recon, it_rec, chunksize=2)):
+        ctx.case(sc, key)
         for mon, detail in fails:
             rep.fail(mon, {"key": key, "kind": "recon", "item": item}, detail=detail)
     rep.close()
